@@ -97,6 +97,56 @@ Fixpoint iter_loop (body : rt -> res) (argsof : Z -> list sval -> option (list s
       | None => (Err false cur, acc) end
   end.
 
+(** Uiua::exec_clean_stack: at a failure the stacks are truncated to beneath the function's arguments *)
+Definition clean_of (ex : node -> rt -> res) (sg : sig) (f : node) (s : rt) : res :=
+  let bottom := length (stk s) - sa sg in
+  let ubottom := length (und s) - sua sg in
+  match ex f s with
+  | Err c s' => Err c (set_su s' (keep_bottom bottom (stk s')) (keep_bottom ubottom (und s')))
+  | r => r end.
+
+(** algorithm::try_ (pattern = false), the loop over the handlers: [f] is the function to try now,
+    [hs] the handlers after it, [te] whether [f] is a handler that was given the error value
+    (which then lies beneath the try's arguments, unless [f] takes it as its deepest argument) *)
+Fixpoint try_loop (ex : node -> rt -> res) (ts : sig) (any : bool)
+    (sf : sig) (f : node) (hs : list (sig * node)) (te : bool) (s : rt) {struct hs} : res :=
+  let targs := sa ts in
+  match hs with
+  | [] =>
+      (* after the loop: remove_n((f.net - try.net).max(0), try_args); exec f *)
+      let n2 := Z.to_nat (Z.max 0 ((Z.of_nat (so sf) - Z.of_nat (sa sf)) - (Z.of_nat (so ts) - Z.of_nat (sa ts)))) in
+      if negb (Nat.eqb n2 0) && negb (need targs s) then Err false s else
+      ex f (set_stk s (remove_n n2 targs (stk s)))
+  | (sh, hnd) :: hs' =>
+      let nb := Nat.min targs (sa sf) in
+      if negb (need nb s) then Err false s else
+      let backup := firstn nb (stk s) in
+      match clean_of ex sf f s with
+      | Ok s2 =>
+          let n1 := Z.to_nat (Z.max 0 ((Z.of_nat (so sf) - Z.of_nat (sa sf)) - (Z.of_nat (so ts) - Z.of_nat (sa ts)))) in
+          let dep := (targs + so sf) - sa sf in
+          if negb (Nat.eqb n1 0) && negb (need dep s2) then Err false s2 else
+          Ok (set_stk s2 (remove_n n1 dep (stk s2)))
+      | Err c s2 =>
+          (* the error value that was given to the failed handler is still beneath the try
+             arguments it did not take, unless it took it as an argument (fix 5e30998) *)
+          let stale := te && (sa sf <=? targs) in
+          if stale && negb (need (targs - sa sf + 1) s2) then Err false s2 else
+          let s2 := if stale then set_stk s2 (remove_n 1 (targs - sa sf + 1) (stk s2)) else s2 in
+          let takes := any && Nat.eqb (sa sh + (so ts - so sh)) (targs + 1) in
+          if c then
+            (* a `case` error passes through a plain try *)
+            let n1 := targs - sa sf in
+            if negb (Nat.eqb n1 0) && negb (need n1 s2) then Err false s2 else
+            Err false (set_stk s2 (remove_n n1 n1 (stk s2)))
+          else
+          let dep := targs - sa sf in
+          if takes && negb (need dep s2) then Err false s2 else
+          let st1 := if takes then insert_at dep errval (stk s2) else stk s2 in
+          try_loop ex ts any sh hnd hs' takes (set_stk s2 (backup ++ st1))
+      | r => r end
+  end.
+
 (** both with a numeric subscript (run_prim.rs ImplPrimitive::BothImpl, no side): the operand runs k
     times, first on the deepest group of [a] arguments, then on the next one above it, ... ; the
     groups above the deepest are popped before the first run *)
@@ -176,13 +226,6 @@ Section Exec.
   Fixpoint exec (fuel : nat) (n : node) (s : rt) {struct fuel} : res :=
     match fuel with O => OOF | S fuel =>
     let ex := exec fuel in
-    (* exec_clean_stack *)
-    let clean (sg : sig) (f : node) (s : rt) : res :=
-      let bottom := length (stk s) - sa sg in
-      let ubottom := length (und s) - sua sg in
-      match ex f s with
-      | Err c s' => Err c (set_su s' (keep_bottom bottom (stk s')) (keep_bottom ubottom (und s')))
-      | r => r end in
     match n with
     | Push v => Ok (set_stk s (v :: stk s))
     | Prim id a o =>
@@ -337,37 +380,13 @@ Section Exec.
               | Ok s3 => Ok (RT (stk s3) (und s3) (tl (fills s3)) (fbs s3) (depth s3))
               | Err c s3 => Err c (RT (stk s3) (und s3) (tl (fills s3)) (fbs s3) (depth s3))
               | r => r end)
-        | MTry, [(sf, f); (sh, hnd)] =>
-            (* algorithm::try_ with exactly one handler, pattern = false *)
-            let ts := fst (try_sig [sf; sh]) in
-            let any_err := snd (try_sig [sf; sh]) in
-            let targs := sa ts in
-            if negb (need targs s) then Err false s else
-            let nb := Nat.min targs (sa sf) in
-            let backup := firstn nb (stk s) in
-            match clean sf f s with
-            | Ok s2 =>
-                let n1 := Z.to_nat (Z.max 0 ((Z.of_nat (so sf) - Z.of_nat (sa sf)) - (Z.of_nat (so ts) - Z.of_nat (sa ts)))) in
-                let dep := (targs + so sf) - sa sf in
-                if negb (Nat.eqb n1 0) && negb (need dep s2) then Err false s2 else
-                Ok (set_stk s2 (remove_n n1 dep (stk s2)))
-            | Err c s2 =>
-                let takes := any_err && Nat.eqb (sa sh + (so ts - so sh)) (targs + 1) in
-                if c then
-                  (* a `case` error passes through a plain try *)
-                  let n1 := targs - sa sf in
-                  if negb (Nat.eqb n1 0) && negb (need n1 s2) then Err false s2 else
-                  Err false (set_stk s2 (remove_n n1 n1 (stk s2)))
-                else
-                let dep := targs - sa sf in
-                if takes && negb (need dep s2) then Err false s2 else
-                let st1 := if takes then insert_at dep errval (stk s2) else stk s2 in
-                let s3 := set_stk s2 (backup ++ st1) in
-                (* after the loop: remove_n((h.net - try.net).max(0), try_args); exec handler *)
-                let n2 := Z.to_nat (Z.max 0 ((Z.of_nat (so sh) - Z.of_nat (sa sh)) - (Z.of_nat (so ts) - Z.of_nat (sa ts)))) in
-                if negb (Nat.eqb n2 0) && negb (need targs s3) then Err false s3 else
-                ex hnd (set_stk s3 (remove_n n2 targs (stk s3)))
-            | r => r end
+        | MTry, (sf, f) :: (sh, hnd) :: hs =>
+            (* algorithm::try_ with any number of handlers, pattern = false *)
+            let sigs := sf :: sh :: map fst hs in
+            let ts := fst (try_sig sigs) in
+            let any_err := snd (try_sig sigs) in
+            if negb (need (sa ts) s) then Err false s else
+            try_loop ex ts any_err sf f ((sh, hnd) :: hs) false s
         | MDipN k, [(_, f)] =>
             if negb (need k s) then Err false s else
             let vals := firstn k (stk s) in
